@@ -1,6 +1,7 @@
 """C01 - events take effect in time order, urgent first, then in trigger order."""
 import json
-from harness import kprops, koracle, klong
+from harness import kprops, koracle, klong, kbridge
+from harness.kbridge import EXTRA_MODULES, TRUSTED_EXTRA, prepare
 
 ASSUMPTIONS = [
     'delays are finite non-NaN numbers; Environment.schedule/Event.trigger are not called directly by user code',
@@ -20,6 +21,7 @@ def run(ctx):
             return {'coverage': {'evaluations': 1, 'distinct_nontrivial': 1, 'rule': 'replayed long-run probe', 'samples': [j['case']],
                                  'long_run_probes': [cov]}, 'disagreements': [], 'oracle_failures': fails}
     res = kprops.run_kernel(ctx, 'C01', SPEC, 2000, 60000, oracles=[kprops.oracle_time_monotone, koracle.oracle_c01])
+    res['coverage'].update(kbridge.coverage('C01'))
     if not ctx.replay:
         # oracle-only cases, counted separately: coincidences of old / recent ordinary and urgent occurrences late in a long run
         fails, cov = klong.probes(ctx)
